@@ -159,6 +159,8 @@ static rc::Gen<std::vector<Op>> gen_phrase(const Weights &w, int nmods, const st
             }
             v.push_back(mkop(P::O_SLEEP, 0, 0, std::get<5>(t))); v.push_back(mkop(P::O_DISPATCH, 0, 0, std::get<6>(t)));
             for (long i = 0; i < std::get<4>(t) / 2 + 1; i++) v.push_back(mkop(P::O_TELL, s, r));
+            // a burst of 0 asked for on the existing bucket, then a series of calls: whatever the request answered, some bound (old or new) must go on holding
+            if (std::get<6>(t) == 4 && std::get<2>(t) < 60000) { v.push_back(mkop(P::O_SET_TB, s, 0, std::get<2>(t), 0)); for (long i = 0; i < 3 * std::get<3>(t) + 8; i++) v.push_back(mkop(P::O_TELL, s, r)); }
             return v; });
     auto fdcycle = gen::map(gen::tuple(slot, gens::range<long>(0, 8), gens::weighted_values<long>({{4, 0}, {2, 1}, {1, 2}, {2, 4}, {1, 5}}), gens::range<long>(1, 4)), [](std::tuple<int, long, long, long> t) {
         return std::vector<Op>{mkop(P::O_FD_REG, std::get<0>(t), 0, std::get<1>(t), std::get<2>(t)), mkop(P::O_FD_WRITE, 0, 0, std::get<1>(t)), mkop(P::O_DISPATCH, 0, 0, std::get<3>(t))}; });
